@@ -30,8 +30,9 @@ def node_choices(i, kinds="C0 C1 CX N & S".split()):
                     yield f"& {d1} {d2}"
 
 
-def exhaustive(natoms, nint):
-    base = ["A"] * natoms
+def exhaustive(natoms, nint, base=None):
+    base = list(base) if base else ["A"] * natoms
+    natoms = len(base)
     def rec(nodes, left):
         if len(nodes) > natoms:
             yield list(nodes)
@@ -47,6 +48,14 @@ def exhaustive(natoms, nint):
 def random_case(rng, size):
     natoms = rng.randint(2, 5)
     nodes = ["A"] * natoms
+    if rng.random() < 0.45:
+        # leaves that are DIFFERENT OUTPUT PORTS of one node (Node_RegSpawner / negativeReg / external module outputs):
+        # a term is identified by (node, port), not by the node
+        for _ in range(rng.choice([1, 1, 2])):
+            k = rng.choice([2, 3, 4])
+            m = len(nodes)
+            nodes.append(f"M {k}")
+            nodes += [f"P {m} {p}" for p in range(1, k)]
     while len(nodes) < size:
         i = len(nodes)
         def d():
@@ -156,6 +165,12 @@ def gen_cases(tier, seed):
     n = 0
     for nodes in exhaustive(2, 3 if tier == "quick" else 3):
         cases.append((f"e2_{n}", nodes, list(range(len(nodes))))); n += 1
+    # all networks over the three output ports of ONE opaque node (+ one ordinary atom in thorough)
+    for nodes in exhaustive(0, 2 if tier == "quick" else 3, base=["M 3", "P 0 1", "P 0 2"]):
+        cases.append((f"m3_{n}", nodes, list(range(len(nodes))))); n += 1
+    if tier == "thorough":
+        for nodes in exhaustive(0, 3, base=["M 3", "P 0 1", "P 0 2", "A"]):
+            cases.append((f"m3a_{n}", nodes, list(range(len(nodes))))); n += 1
     if tier == "thorough":
         for nodes in exhaustive(3, 3):
             cases.append((f"e3_{n}", nodes, list(range(len(nodes))))); n += 1
@@ -193,7 +208,8 @@ def main():
 
     rep.cov["evaluations"] = len(cases) - skipped
     rep.cov["distinct_nontrivial"] = nontriv
-    rep.cov["rule"] = ("networks over AND/NOT/const(0,1,X)/signal/opaque nodes: all networks with 2 atoms and <=3 internal nodes "
+    rep.cov["multi_output_leaf_cases"] = sum(1 for c in cases if any(x.startswith("M ") for x in c[1]))
+    rep.cov["rule"] = ("networks over AND/NOT/const(0,1,X)/signal/opaque nodes (atoms incl. several output ports of one opaque node): all networks with 2 atoms and <=3 internal nodes "
                        "(3 atoms in thorough) with every port as root, plus seeded random networks of 6..40 ports; "
                        "non-trivial = distinct network in which some root parses to >=2 terms or to a contradiction")
     rep.cov["traces_validated_against_impl"] = len(cases) - skipped if mod is not None else 0
